@@ -31,9 +31,10 @@ def tls13Prefix : Bytes := [116, 108, 115, 49, 51, 32]  -- "tls13 "
 def lblKey : Bytes := [107, 101, 121]  -- "key"
 def lblIv : Bytes := [105, 118]  -- "iv"
 def lblTrafficUpd : Bytes := [116, 114, 97, 102, 102, 105, 99, 32, 117, 112, 100]  -- "traffic upd"
+def lblExporter : Bytes := [101, 120, 112, 111, 114, 116, 101, 114]  -- "exporter"
 
 def labelTable : List (Bytes × String) :=
-  [(lblMasterSecret, "master secret"), (lblKeyExpansion, "key expansion"), (lblClientFinished, "client finished"), (lblServerFinished, "server finished"), (lblExtendedMasterSecret, "extended master secret"), (tls13Prefix, "tls13 "), (lblKey, "key"), (lblIv, "iv"), (lblTrafficUpd, "traffic upd")]
+  [(lblMasterSecret, "master secret"), (lblKeyExpansion, "key expansion"), (lblClientFinished, "client finished"), (lblServerFinished, "server finished"), (lblExtendedMasterSecret, "extended master secret"), (tls13Prefix, "tls13 "), (lblKey, "key"), (lblIv, "iv"), (lblTrafficUpd, "traffic upd"), (lblExporter, "exporter")]
 
 def labelsOk : Bool := labelTable.all fun p => p.1 == ascii p.2
 
@@ -296,6 +297,30 @@ def calcTls13KeyUpdate (mac : Bytes → Bytes → Bytes) (dl : Nat) (appSecret :
   let iv ← hkdfExpandLabel mac dl newSecret (lblIv) [] 12
   pure (newSecret, key, iv)
 
+/-- Python tuple comparison `a < b` on versions -/
+def verLt (a b : Nat × Nat) : Bool := a.1 < b.1 || (a.1 == b.1 && a.2 < b.2)
+
+/-- `TLSConnection.keyingMaterialExporter(label, length)` (tlslite/tlsconnection.py);
+    `mac256` / `mac384` = `secureHMAC(·, ·, 'sha256' / 'sha384')` (the interpreter's HMAC) -/
+def keyingMaterialExporter (hs : Hashes) (mac256 mac384 : Bytes → Bytes → Bytes) (version : Nat × Nat)
+    (sha384Prf : Bool) (masterSecret clientRandom serverRandom exporterMasterSecret label : Bytes)
+    (length : Nat) : Except Err Bytes :=
+  if label = lblServerFinished ∨ label = lblClientFinished ∨ label = lblMasterSecret ∨ label = lblKeyExpansion then
+    .error .value
+  else if verLt version (3, 1) then .error .value
+  else if verLt version (3, 3) then prf hs.md5 hs.sha1 masterSecret label (clientRandom ++ serverRandom) length
+  else if version = (3, 3) then
+    if sha384Prf then prf12 hs.sha384 masterSecret label (clientRandom ++ serverRandom) length
+    else prf12 hs.sha256 masterSecret label (clientRandom ++ serverRandom) length
+  else if version = (3, 4) then
+    let h := if sha384Prf then hs.sha384 else hs.sha256
+    let mac := if sha384Prf then mac384 else mac256
+    do
+      let secret ← deriveSecret mac h exporterMasterSecret label none
+      let ctxhash := h.H []
+      hkdfExpandLabel mac h.digestSize secret lblExporter ctxhash length
+  else .error .assertion
+
 end Model
 
 /-! ## Specifications -/
@@ -400,6 +425,18 @@ def hkdfExpandLabel (mac : Bytes → Bytes → Bytes) (dl : Nat) (secret label c
 /-- RFC 8446 §7.1 Derive-Secret(Secret, Label, Messages) = HKDF-Expand-Label(Secret, Label, Hash(Messages), Hash.length) -/
 def deriveSecret (mac : Bytes → Bytes → Bytes) (h : Hash) (secret label messages : Bytes) : Bytes :=
   hkdfExpandLabel mac h.digestSize secret label (h.H messages) h.digestSize
+
+/-- RFC 5705 §4 (TLS ≤ 1.2, no context): PRF(master_secret, label, client_random + server_random)[length];
+    RFC 8446 §7.5: HKDF-Expand-Label(Derive-Secret(exporter_master_secret, label, ""), "exporter", Hash(""), length) -/
+def exporter (hs : Model.Hashes) (mac256 mac384 : Bytes → Bytes → Bytes) (tls13 : Bool) (v : Version)
+    (sha384Prf : Bool) (ms cr sr ems label : Bytes) (length : Nat) : Bytes :=
+  if tls13 then
+    let h := if sha384Prf then hs.sha384 else hs.sha256
+    let mac := if sha384Prf then mac384 else mac256
+    hkdfExpandLabel mac h.digestSize (deriveSecret mac h ems label []) lblExporter (h.H []) length
+  else match v with
+    | .tls12 => prf12 (if sha384Prf then hs.sha384 else hs.sha256) ms label (cr ++ sr) length
+    | _ => prf10 hs.md5 hs.sha1 ms label (cr ++ sr) length
 
 /-- RFC 5246 §6.3: the key block is partitioned as client_write_MAC_key, server_write_MAC_key,
     client_write_key, server_write_key, client_write_IV, server_write_IV -/
